@@ -53,6 +53,7 @@ def run_api_ppa(ctx, rule, ppa, scope, floor, only=None):
     for f in sorted(scope, key=lambda f: f.id):
         if only is not None and not only(f):
             continue
+        seen_keys = {}
         for o in P.enumerate_obligations(ppa, f):
             if not P.obligation_tainted(ppa, o) and not P.always_obligation(o):
                 skipped += 1
@@ -63,7 +64,11 @@ def run_api_ppa(ctx, rule, ppa, scope, floor, only=None):
                 ok2, why2 = P.decide_at_callers(ppa, o)
                 if ok2:
                     ok, why = True, why2
-            key = "%s:%s" % (rule, o.key())
+            okey = o.key()
+            seen_keys[okey] = seen_keys.get(okey, 0) + 1
+            if seen_keys[okey] > 1:
+                okey = "%s#%d" % (okey, seen_keys[okey])      # identical operand text twice in one function: number them
+            key = "%s:%s" % (rule, okey)
             loc = "%s:%s" % (f.file, o.line)
             if ok:
                 ctx.ok(rule, key, why[:200], loc=loc,
